@@ -831,6 +831,15 @@ func init() {
 
 func init() {
 	externals["internal/bytealg.IndexByteString"] = func(fr *frame, a []value) value {
+		if ss, ok := a[0].(symStr); ok {
+			// first index of the byte, or -1: an ite chain over the bounded byte vector
+			t := bvConst(^uint64(0), 64)
+			for i := len(ss.b) - 1; i >= 0; i-- {
+				hit := mkAnd(fmt.Sprintf("(bvsgt %s %s)", lenTerm(ss.n), bvConst(uint64(i), 64)), fmt.Sprintf("(= %s %s)", byteTerm(ss.b[i]), byteTerm(a[1])))
+				t = mkIte(hit, bvConst(uint64(i), 64), t)
+			}
+			return newI(64, true, types.Int, t)
+		}
 		return strings.IndexByte(strArg(a[0]), a[1].(byte))
 	}
 	externals["internal/bytealg.IndexString"] = func(fr *frame, a []value) value {
@@ -853,4 +862,36 @@ func init() {
 	id := func(fr *frame, a []value) value { return a[0] }
 	externals["internal/stringslite.Clone"] = id
 	externals["strings.Clone"] = id
+}
+
+func init() {
+	strs := func(v value) []string {
+		var out []string
+		for _, x := range v.([]value) {
+			out = append(out, strArg(x))
+		}
+		return out
+	}
+	toVals := func(ss []string) value {
+		out := make([]value, len(ss))
+		for i, s := range ss {
+			out[i] = s
+		}
+		return out
+	}
+	externals["strings.Join"] = func(fr *frame, a []value) value { return strings.Join(strs(a[0]), strArg(a[1])) }
+	externals["strings.Split"] = func(fr *frame, a []value) value { return toVals(strings.Split(strArg(a[0]), strArg(a[1]))) }
+	externals["strings.Fields"] = func(fr *frame, a []value) value { return toVals(strings.Fields(strArg(a[0]))) }
+	externals["strings.ToUpper"] = func(fr *frame, a []value) value { return strings.ToUpper(strArg(a[0])) }
+	externals["strings.Repeat"] = func(fr *frame, a []value) value { return strings.Repeat(strArg(a[0]), a[1].(int)) }
+	externals["(*strings.Builder).Grow"] = func(fr *frame, a []value) value { return nil }
+	externals["(*strings.Builder).WriteByte"] = func(fr *frame, a []value) value {
+		cur.builders[a[0].(*value)] += string([]byte{a[1].(byte)})
+		return iface{}
+	}
+	externals["(*strings.Builder).WriteRune"] = func(fr *frame, a []value) value {
+		r := string(rune(a[1].(int32)))
+		cur.builders[a[0].(*value)] += r
+		return tuple{len(r), iface{}}
+	}
 }
